@@ -45,7 +45,7 @@ RespClass(e) == IF e.resp.panic \/ e.resp.hung THEN "error"
                 ELSE "error"
 
 IsRead(e)  == e.op.op \in {"BlobGet", "ManGet"}
-IsEnv(e)   == e.op.op \in {"Restart", "Reconf", "GC", "GCPass", "Age", "MkCorrupt", "ProbeAll"}
+IsEnv(e)   == e.op.op \in {"Restart", "Reconf", "GC", "GCPass", "Age", "MkCorrupt", "ProbeAll", "Tick", "Evict"}
 
 \* the response: class, pinned status, and the fields the properties name
 CResp(e) ==
@@ -110,6 +110,12 @@ CSess(e) ==
   \A r \in DOMAIN e.obs : LET o == e.obs[r] IN
      /\ \A x \in S(o.sess) : (x.st = 204) <=> (x.h \in DOMAIN sess' /\ sess'[x.h].open)
      /\ o.nsess = Cardinality({h \in DOMAIN sess' : sess'[h].open /\ sess'[h].repo = r})
+
+\* C08: a count prune removed the least recently used sessions down to the lower mark (policy of the bound step), and
+\* once no prune is pending no repository holds more sessions than configured
+CEvict(e) == /\ (e.op.op = "Evict" => EvictOK(EvictedOf(e.op)))
+             /\ (("pending" \in DOMAIN e /\ e.pending = 0 /\ UploadMax > 0) =>
+                    \A r \in DOMAIN e.obs : e.obs[r].nsess <= UploadMax)
 
 \* C15: nothing met while executing or observing was a panic, a hang or a 5xx
 CNoErr(e) ==
@@ -194,7 +200,7 @@ CConfined(e) == e.outsum = osum
 Clauses(e) ==
   { <<"resp", CResp(e)>>, <<"tagsresp", CTagsResp(e)>>, <<"integrity", CIntegrity(e)>>, <<"sync.blobs", CSyncBlobs(e)>>,
     <<"sync.mans", CSyncMans(e)>>, <<"sync.tags", CSyncTags(e)>>, <<"taglist", CTagList(e)>>,
-    <<"refs", CRefs(e)>>, <<"sess", CSess(e)>>, <<"noerr", CNoErr(e)>>,
+    <<"refs", CRefs(e)>>, <<"sess", CSess(e)>>, <<"sess.evict", CEvict(e)>>, <<"noerr", CNoErr(e)>>,
     <<"gc.safe", CGCSafe(e)>>, <<"gc.exact", CGCExact(e)>>, <<"gc.idem", CGCIdem(e)>>, <<"gc.index", CGCIndex(e)>>,
     <<"disk.layout", CDiskLayout(e)>>, <<"disk.index", CDiskIndex(e)>>, <<"disk.files", CDiskFiles(e)>>,
     <<"ro.frozen", CROFrozen(e)>>, <<"ro.refused", CRORefused(e)>>, <<"confined", CConfined(e)>> }
@@ -206,7 +212,7 @@ Enforced ==
     C03 |-> {"resp", "tagsresp", "sync.mans", "sync.tags", "taglist", "noerr"},
     C04 |-> {"resp", "sync.blobs", "sync.mans", "sync.tags", "taglist", "refs", "noerr"},
     C07 |-> {"resp", "refs", "sync.mans", "noerr"},
-    C08 |-> {"resp", "sess", "sync.blobs", "noerr"},
+    C08 |-> {"resp", "sess", "sess.evict", "sync.blobs", "disk.files", "noerr"},
     C05 |-> {"gc.safe", "integrity", "sync.blobs", "sync.mans", "sync.tags", "taglist", "noerr"},
     C10 |-> {"disk.layout", "disk.index", "disk.files", "sync.blobs", "sync.mans", "sync.tags", "taglist", "refs",
              "integrity", "gc.safe", "noerr"},
@@ -243,7 +249,7 @@ GCBind(e) ==
   /\ young' = [r \in Repos |-> IF BindRepo(e, r) THEN young[r] \cap ObsB(e, r) ELSE young[r]]
   /\ sess' = IF e.op.op = "Restart" THEN [h \in DOMAIN sess |-> [sess[h] EXCEPT !.open = FALSE]] ELSE sess
   /\ resp' = Ok(0)
-  /\ UNCHANGED <<env, nsess, base>>
+  /\ UNCHANGED <<env, nsess, base>> /\ ClockStep
 IsCollection(e) == GCRepos(e) # {} /\ ~(e.op.op = "Restart" /\ GCNoop)
 Step(e) == IF IsCollection(e) THEN GCBind(e) ELSE Do(e.op)
 
@@ -265,7 +271,7 @@ TraceReset ==
      /\ tag' = [r \in ReposOf(en) |-> <<>>]
      /\ young' = [r \in ReposOf(en) |-> {}]
      /\ base' = [blob |-> [r \in ReposOf(en) |-> {}], man |-> [r \in ReposOf(en) |-> <<>>], tag |-> [r \in ReposOf(en) |-> <<>>]]
-  /\ sess' = <<>> /\ nsess' = 0 /\ resp' = R0
+  /\ sess' = <<>> /\ nsess' = 0 /\ resp' = R0 /\ clk' = [now |-> 0, timer |-> [r \in ReposOf(EnvOf(Trace[l])) |-> -1]]
   /\ l' = l + 1 /\ skip' = FALSE /\ UNCHANGED fails /\ lastgc' = ""
   /\ prevobs' = [none |-> TRUE] /\ rsum' = Trace[l].rootsum /\ osum' = Trace[l].outsum
   /\ pre' = [blob |-> blob', man |-> man', tag |-> tag'] /\ lastop' = [op |-> "none"]
